@@ -325,8 +325,21 @@ def load_config_file(orchestrator: "Orchestrator", config_file: str, verbose: bo
 
     # Load config into orchestrator
     orchestrator.config = orchestrator.config_loader.load(config_path)
+    _apply_repo_ignores_from_config(orchestrator)
 
     logger.debug(f"Loaded config from: {config_file}")
+
+
+def _apply_repo_ignores_from_config(orchestrator: "Orchestrator") -> None:
+    """Honour the top-level ignore list of an explicitly given config file."""
+    from src.linter_config.ignore import IgnoreDirectiveParser
+
+    ignore_patterns = orchestrator.config.get("ignore")
+    if not isinstance(ignore_patterns, list):
+        return
+    parser = IgnoreDirectiveParser(orchestrator.project_root)
+    parser.repo_patterns = [str(pattern) for pattern in ignore_patterns]
+    orchestrator.ignore_parser = parser
 
 
 # =============================================================================
